@@ -940,6 +940,34 @@ pub fn generate(ctx: &Ctx, prop: &str, rng: &mut Rng64, thorough: bool) -> Searc
         repeat: 0,
     };
     match prop {
+        "C03" if rng.chance(250) => {
+            // a game going forward on a small table: each position is searched after one of its
+            // predecessors was searched deeper, so the new root usually already has an entry
+            // (it is answered from the table, or searched inside a window narrowed by it) while
+            // the rest of the table is under displacement pressure
+            case.dims = *rng.pick(&[(1usize, 1usize), (1, 2), (1, 4), (1, 4), (2, 8), (8, 64)]);
+            let mut p = pick_position(ctx, rng);
+            let n = 2 + rng.below(3) as usize;
+            let mut depth = 3 + rng.below(if thorough { 3 } else { 2 }) as u32;
+            for i in 0..n {
+                let (entry, rt, w) = entry_for(rng, Some(depth));
+                let d = if w >= 8 { depth.min(3) } else { depth };
+                let mut faults = Vec::new();
+                if rng.chance(300) {
+                    faults.push(Fault { kind: FaultKind::StopAtGlobalNode, at: 20 + rng.below(1500), times: 1 });
+                }
+                case.searches.push(SearchSpec { fen: p.fen(), depth: Some(d), seed: rng.next(), entry, rayon_threads: rt, fresh: false, history: vec![], faults });
+                if i + 1 < n {
+                    let k = 1 + rng.below(2) as u32;
+                    let q = corpus::random_play(rng, &p, k).0;
+                    if q.legal_moves().is_empty() || q == p {
+                        break;
+                    }
+                    p = q;
+                    depth = depth.saturating_sub(rng.below(2) as u32 + if k == 2 { 1 } else { 0 }).max(1);
+                }
+            }
+        }
         "C03" => {
             case.dims = *rng.pick(PRESSURE_DIMS);
             let p = pick_position(ctx, rng);
